@@ -155,6 +155,17 @@ def _typestate(chk: Check, ad) -> None:
                "get_raw_data must return the loaded bytes unchanged", 1)
 
 
+def _neg(cfg: CFG, branches: Set[int]) -> Set[int]:
+    """the opposite outcomes of the given branch nodes"""
+    out: Set[int] = set()
+    for b in branches:
+        t = cfg.info[b].test
+        for s_ in cfg.g.successors(t) if t is not None else []:
+            if s_ != b and cfg.info[s_].kind == "branch":
+                out.add(s_)
+    return out
+
+
 def _to_protobuf(chk: Check, ad) -> None:
     f = ad.methods.get("_to_protobuf")
     if f is None:
@@ -206,6 +217,19 @@ def _to_protobuf(chk: Check, ad) -> None:
         chk.ob("R14.2", "AuxData._to_protobuf:raw-reuse-needs-same-type-name", ok2, f.loc(w),
                "the loaded bytes are written although the type name may have been changed since "
                "loading: the table would be saved as old bytes under a new type name", 3)
+    # ... and an unread table whose type name is unchanged is ALWAYS written back as loaded (never
+    # re-encoded, which may rewrite it): the encoding branch is only reached when the bytes are
+    # gone or the type name differs
+    not_held = _neg(cfg, held) if held else set()
+    differs = _neg(cfg, same) if same else set()
+    for c in walk_no_nested(f.node):
+        if isinstance(c, ast.Call) and isinstance(c.func, ast.Attribute) and c.func.attr == "encode" \
+                and "serializer" in unparse(c.func.value):
+            wit_ = cfg.path_avoiding(cfg.entry, cfg.node_of(c), not_held | differs)
+            chk.ob("R14.2", "AuxData._to_protobuf:re-encodes-only-when-necessary", wit_ is None and bool(held) and bool(same),
+                   f.loc(c), "a table whose loaded bytes are still held under an unchanged type name is re-encoded "
+                   "on the path %s: the untouched table is rewritten (canonicalised) instead of written back "
+                   "byte for byte" % (" -> ".join(cfg.describe_path(wit_)) if wit_ else "-"), 3)
     chk.ob("R14.2", "AuxData._to_protobuf:has-raw-and-encoded-branch", len(raw) == 1 and len(enc) >= 1,
            f.loc(), "AuxData._to_protobuf needs one branch reusing the loaded bytes and one encoding "
            "the current value (raw=%d, encoded=%d)" % (len(raw), len(enc)), 2)
